@@ -44,6 +44,43 @@ def run(ctx):
         for rr in ex.map(one, jobs):
             ctx.absorb(rr, "wrapper")
 
+    service(ctx, thorough)
+
+
+def service(ctx, thorough):
+    """Beyond the listed property (leads only): ProverService.tla - the /proof handler of cmd/web-api.go, which takes the verifier key
+    from the request.  The real handler is driven with httptest; its request/response records must be behaviours of the module."""
+    import json
+    import os
+    ctx.tlc("ProverService", "ProverService.cfg", workers=2)
+    ctx.tlc("ProverService", "ProverService_unpinned.cfg", workers=2, expect_violation=True)
+    tf = os.path.join(ctx.scratch("service"), "service.ndjson")
+    rr = ctx.run_driver("service", {"part": "full" if thorough else "cheap", "trace_file": tf}, tag="service", timeout=3400)
+    tr = ctx.tlc("ProverServiceTrace", "ProverServiceTrace.cfg", workers=1, extra_files={tf: "service_trace.ndjson"}, name="service-trace")
+    recs = [json.loads(x) for x in open(tf) if x.strip()]
+    # negative self-test of the binding: one response status changed must be rejected
+    bad = [dict(x) for x in recs]
+    for x in bad:
+        if x["ev"] == "response" and x["status"] == 500:
+            x["status"] = 200
+            x["inputsOk"] = x["proofOk"] = True
+            break
+    bp = os.path.join(ctx.scratch("service"), "bad.ndjson")
+    common.write_ndjson(bp, bad)
+    neg = ctx.tlc("ProverServiceTrace", "ProverServiceTrace.cfg", workers=1, extra_files={bp: "service_trace.ndjson"}, name="service-neg")
+    if neg["ok"]:
+        raise common.MachineryError("service trace self-test: a corrupted response status was accepted")
+    summary = "; ".join("%s->%s" % (x["request"], x["status"]) for x in rr.get("results", []))
+    note = "beyond the listed property - ProverService: %d requests to the real handler (%s); trace %s by ProverServiceTrace (KeyPinned = FALSE, what the code does)" % (
+        len(recs) // 2, summary, "accepted" if tr["ok"] else "REJECTED")
+    if thorough:
+        pin = ctx.tlc("ProverServiceTrace", "ProverServiceTrace_pinned.cfg", workers=1, extra_files={tf: "service_trace.ndjson"}, name="service-pinned")
+        note += "; under KeyPinned = TRUE the same trace is %s (finding F4 seen at the service: a 200 response for a key with a changed unselected entry)" % (
+            "rejected" if not pin["ok"] else "accepted")
+    ctx.notes.append(note)
+    if not tr["ok"]:
+        ctx.leads.append("BEYOND module=ProverService the handler's request/response records are not a behaviour of ProverService.tla: " + summary)
+
 
 def replay(ctx, rec):
     c = rec["case"]
